@@ -24,7 +24,8 @@ const TWO53: f64 = 9007199254740992.0;
 /// exact conversion of an integer below 2^53 in absolute value
 fn to_f64_exact(x: &BigInt) -> f64 {
     let v = x.to_f64().expect("f64");
-    assert!(v.abs() < TWO53, "entry not exactly representable");
+    // below 2^53 every integer is a double; above, only those with enough trailing zero bits
+    assert!(v.abs() < TWO53 || num::FromPrimitive::from_f64(v).as_ref() == Some(x), "entry not exactly representable");
     v
 }
 fn mat_f64(a: &M) -> Vec<Vec<f64>> {
@@ -140,6 +141,56 @@ fn do_lll_scaled(ctx: &mut Ctx, b: &M, k: i32) {
         format!("{}|{}", bs, show_mat(&h))
     });
     ctx.emit("lll.scaled", &[show_mat(b), k.to_string()], ans);
+}
+
+/// bases on which every floating-point operation of `lll` is exact or far from a decision boundary:
+/// unitriangular bases of Z^n with huge power-of-two entries (multipliers beyond 2^63: the reduced basis
+/// is a signed permutation matrix), and strongly skew 2 x 2 / 3 x 3 bases with small determinant
+/// (a long row almost in the span of the earlier ones). Op `lll.x`: the oracle is applied whatever the
+/// size of the intermediate integers of the exact replay.
+fn gen_lll_extreme(ctx: &mut Ctx) {
+    let p2 = |k: u32| BigInt::from(1) << k;
+    let one = BigInt::one;
+    let zero = BigInt::zero;
+    let mut cases: Vec<M> = vec![];
+    for k in [40u32, 62, 63, 64, 70, 100, 130] {
+        cases.push(vec![vec![one(), zero()], vec![p2(k), one()]]);
+        cases.push(vec![vec![one(), zero()], vec![-p2(k), one()]]);
+        cases.push(vec![vec![one(), zero(), zero()], vec![p2(k), one(), zero()], vec![p2(k / 2), -p2(k), one()]]);
+    }
+    let iv = |rows: &[&[i64]]| -> M { rows.iter().map(|r| r.iter().map(|&x| BigInt::from(x)).collect()).collect() };
+    cases.push(iv(&[&[3, 0], &[1_000_000_000, 1]]));
+    cases.push(iv(&[&[9, 0], &[4_000_000_000, 1]]));
+    cases.push(iv(&[&[6, 0], &[250_000_000, 1]]));
+    cases.push(iv(&[&[4, 1], &[2_000_000_001, 500_000_003]]));
+    cases.push(iv(&[&[2, 0, 0], &[1, 3, 0], &[400_000_001, -500_000_003, 1]]));
+    cases.push(iv(&[&[5, 0], &[3_000_000_007, 1]]));
+    cases.push(iv(&[&[7, 0], &[123_456_789_012, 1]]));
+    for b in &cases {
+        let ans = run(|| {
+            let bf = mat_f64(b);
+            let (red, h) = lll(&bf);
+            let mut ok = true;
+            let rows: Vec<String> = red
+                .iter()
+                .map(|r| {
+                    r.iter()
+                        .map(|&v| match int_of(v) {
+                            Some(i) => i.to_string(),
+                            None => {
+                                ok = false;
+                                String::new()
+                            }
+                        })
+                        .collect::<Vec<_>>()
+                        .join(",")
+                })
+                .collect();
+            let bs = if ok { rows.join(";") } else { "nonint".to_string() };
+            format!("{}|{}", bs, show_mat(&h))
+        });
+        ctx.emit("lll.x", &[show_mat(b)], ans);
+    }
 }
 
 fn lll_case(ctx: &mut Ctx, b: &M) -> bool {
@@ -326,6 +377,19 @@ fn do_muk(ctx: &mut Ctx, f: &[BigInt], kind: &str, seed: u64) {
 pub fn replay(ctx: &mut Ctx, f: &[&str]) -> bool {
     match (f[0], f.len()) {
         ("lll", 2) => do_lll(ctx, &parse_mat(f[1])),
+        ("lll.x", 2) => {
+            let b = parse_mat(f[1]);
+            let ans = run(|| {
+                let (red, h) = lll(&mat_f64(&b));
+                let mut ok = true;
+                let rows: Vec<String> = red
+                    .iter()
+                    .map(|r| r.iter().map(|&v| match int_of(v) { Some(i) => i.to_string(), None => { ok = false; String::new() } }).collect::<Vec<_>>().join(","))
+                    .collect();
+                format!("{}|{}", if ok { rows.join(";") } else { "nonint".to_string() }, show_mat(&h))
+            });
+            ctx.emit("lll.x", &[show_mat(&b)], ans);
+        }
         ("lll.scaled", 3) => match f[2].parse::<i32>() {
             Ok(k) => do_lll_scaled(ctx, &parse_mat(f[1]), k),
             Err(_) => return false,
@@ -879,6 +943,7 @@ fn gen_muk(ctx: &mut Ctx) {
 }
 
 pub fn generate(ctx: &mut Ctx) {
+    gen_lll_extreme(ctx);
     // C20_ONLY=lll|enum|muk restricts the run to one family (debugging aid)
     let only = std::env::var("C20_ONLY").unwrap_or_default();
     if only.is_empty() || only == "lll" {
